@@ -365,6 +365,7 @@ def draw_style(draw: Any) -> render_bp.Style:
         spicy_comments=draw(st.booleans()),
         trailing_comments=draw(st.booleans()),
         join_statements=draw(st.booleans()),
+        proto_late=draw(st.integers(0, 3)) == 2,
         crlf=draw(st.integers(0, 3)) == 1,
     )
 
